@@ -203,7 +203,13 @@ pub type StepHook<'h> = &'h mut dyn FnMut(&mut World, &mut Ctx) -> Outcome;
 pub fn do_send(w: &mut World, ctx: &mut Ctx, spec: &OpSpec) -> Result<Op, Fail> {
     let d = pick_dir(&mut ctx.src, w);
     let ch = pick_chan(&mut ctx.src, w, d);
-    let len = gen_len(&mut ctx.src, &spec.sizes, spec.max_slices);
+    let mut len = gen_len(&mut ctx.src, &spec.sizes, spec.max_slices);
+    // now and then a message as large as the channel budget allows (sizes 'up to the channel budget')
+    let max_mem = w.dirs[d.idx()].chans[&ch].cfg.max_mem;
+    if max_mem <= 70_000 && ctx.src.chance(10) {
+        len = max_mem.saturating_sub(ctx.src.pick(&[0usize, 1, 1199, 1200, 1201]));
+        ctx.label("budget_sized_msg");
+    }
     let n = 1 + if ctx.src.chance(64) { ctx.src.below(spec.burst.max(1)) } else { 0 };
     let mut accepted = 0;
     for _ in 0..n {
